@@ -153,11 +153,12 @@ Proof. split; [exact Top.dia_wf|exact NetSlots.pdia_fit]. Qed.
 
 (* ---- fan-in into the in-ports of one process (FanIn.v).  The network theorems above are about merge-free graphs.  With
    several producers feeding the same in-ports, the sequential blocking sends of the producers and the sequential blocking
-   receives of the consumer can wait for each other.  For every number of producers and channels, every send and receive
-   order, every number of rounds and every schedule: if the buffer has room for one item per producer, no reachable state
-   is stuck before everything has been sent and received ... *)
+   receives of the consumer can wait for each other.  For every number of producers and channels, every choice of send and
+   receive orders (a new one in every round, as Go's map iteration gives), every number of rounds and every schedule: if
+   the buffer has room for one item per producer, no reachable state is stuck before everything has been sent and
+   received ... *)
 Theorem C05_fanin_no_deadlock : forall (m : nat) (ps : list (list nat * nat)) (co : list nat) (cp : nat) (l : list FanIn.act) (s : FanIn.st),
-  FanIn.wf_in m ps co -> length ps <= cp -> FanIn.run (FanIn.init ps co cp) l = Some s -> ~ FanIn.finished m s ->
+  FanIn.wf_in m ps co -> length ps <= cp -> FanIn.run (FanIn.init m ps co cp) l = Some s -> ~ FanIn.finished m s ->
   exists a, FanIn.step s a <> None.
 Proof. exact FanIn.fanin_no_deadlock. Qed.
 
@@ -168,14 +169,16 @@ Theorem C05_fanin_terminates : forall (m : nat) (s : FanIn.st) (a : FanIn.act) (
 Proof. exact FanIn.fanin_step_decreases. Qed.
 
 Theorem C05_fanin_maximal : forall (m : nat) (ps : list (list nat * nat)) (co : list nat) (cp : nat) (l : list FanIn.act) (s : FanIn.st),
-  FanIn.wf_in m ps co -> length ps <= cp -> FanIn.run (FanIn.init ps co cp) l = Some s -> (forall a, FanIn.step s a = None) ->
+  FanIn.wf_in m ps co -> length ps <= cp -> FanIn.run (FanIn.init m ps co cp) l = Some s -> (forall a, FanIn.step s a = None) ->
   Forall (fun p => FanIn.left p = 0) (FanIn.prods s) /\ forall ch, ch < m -> FanIn.q s ch = 0.
 Proof. exact FanIn.fanin_maximal_run_completes. Qed.
 
 (* ... and with a smaller buffer the statement is false (finding D21): two producers, three shared in-ports, buffer size 1 --
-   a reachable state in which nobody is done and nobody can move (replayed on the real library with SCIPIPE_BUFSIZE=1) *)
+   a reachable state in which a producer still has items and no action is possible, whatever order it proposes (replayed on
+   the real library with SCIPIPE_BUFSIZE=1) *)
 Theorem C05_fanin_small_buffer_refuted :
-  exists sched s, FanIn.run (FanIn.d21 1) sched = Some s /\ FanIn.stuck s = true /\ FanIn.all_done s = false.
+  exists sched s, FanIn.run (FanIn.d21 1) sched = Some s /\ (forall a, FanIn.step s a = None)
+                  /\ Exists (fun p => FanIn.left p <> 0) (FanIn.prods s).
 Proof. exact FanIn.fanin_deadlock. Qed.
 
 (* the hypotheses of C05_fanin_no_deadlock are satisfiable: the configuration of the finding, with buffer size 2 *)
